@@ -11,6 +11,7 @@ import (
 	"runtime/debug"
 	"testing"
 	"testing/synctest"
+	"time"
 )
 
 // Job is one unit of work handed to a worker by the driver.
@@ -68,7 +69,10 @@ func scratch() string {
 		if base == "" {
 			base = "/dev/shm"
 		}
-		scratchRoot = fmt.Sprintf("%s/bsim-%d", base, os.Getpid())
+		// unique per process AND per start: a worker that was killed leaves
+		// its directory behind, and process ids are reused
+		scratchRoot = fmt.Sprintf("%s/bsim-%d-%d", base, os.Getpid(), time.Now().UnixNano())
+		_ = os.RemoveAll(scratchRoot)
 		_ = os.MkdirAll(scratchRoot, 0700)
 	}
 	return scratchRoot
